@@ -586,6 +586,10 @@ func TestVerifC18CLI(t *testing.T) {
 		if c.Mode != "" {
 			site = c.Tool + "[" + c.Mode + "]/" + c.Format
 		}
+		if certain {
+			// (vacuity guard: a fault the harness made certain, counted before the answer of the command is looked at)
+			r.Count("cli_runs_with_certain_write_failure", 1)
+		}
 		if res.timeout {
 			r.Violate(fmt.Sprintf("cli/%s:%s/hang", site, map[bool]string{false: "plain", true: "gzip"}[c.Gzip]),
 				fmt.Sprintf("%s: the command did not end within 120 s", c), c)
@@ -594,7 +598,6 @@ func TestVerifC18CLI(t *testing.T) {
 		if !certain {
 			return
 		}
-		r.Count("cli_runs_with_certain_write_failure", 1)
 		if res.status != 0 {
 			r.Count("cli_nonzero_exit", 1)
 			return
